@@ -118,6 +118,7 @@ xread(void *vbuf, size_t *vacant)
     ssize_t rd;
 
     VERIF_PERTURB();
+    VERIF_DELAY("read", 0);
     rd = read(ispec.fd, buffer, *vacant > (size_t)SSIZE_MAX ?
               (size_t)SSIZE_MAX : *vacant);
 
@@ -149,6 +150,7 @@ xwrite(const void *vbuf, size_t size)
       ssize_t wr;
 
       VERIF_PERTURB();
+      VERIF_DELAY("write", 0);
       wr = write(ospec.fd, buffer, size > (size_t)SSIZE_MAX ?
                  (size_t)SSIZE_MAX : size);
 
